@@ -690,7 +690,7 @@ func registerBig(e *Engine) {
 	ic["(*math/big.Int).SetString"] = func(e *Engine, st *State, fr *Frame, in ssa.CallInstruction, a []Val) Val {
 		s := a[1].(StrVal)
 		base := e.needInt(st, a[2], "SetString base")
-		if base == 0 || base > 16 {
+		if base > 16 || base < 0 || base == 1 {
 			abort("unsupported", "big.Int.SetString base %d", base)
 		}
 		fail := TupleVal{[]Val{PtrVal{}, False}}
@@ -707,6 +707,34 @@ func registerBig(e *Engine) {
 		}
 		if len(b) == 0 {
 			return fail
+		}
+		if base == 0 {
+			// base 0: the prefix selects the base ("0x" 16, "0b" 2, "0o" or a bare
+			// leading "0" 8, otherwise 10); underscores are not modelled
+			base = 10
+			if len(b) > 1 && e.decide(st, Eq(b[0], ConstBV(8, '0'))) {
+				isC := func(lo, up byte) bool {
+					return e.decide(st, Or(Eq(b[1], ConstBV(8, uint64(lo))), Eq(b[1], ConstBV(8, uint64(up)))))
+				}
+				switch {
+				case isC('x', 'X'):
+					base, b = 16, b[2:]
+				case isC('b', 'B'):
+					base, b = 2, b[2:]
+				case isC('o', 'O'):
+					base, b = 8, b[2:]
+				default:
+					base, b = 8, b[1:]
+				}
+				if len(b) == 0 {
+					return fail
+				}
+			}
+			for _, ch := range b {
+				if e.decide(st, Eq(ch, ConstBV(8, '_'))) {
+					abort("unsupported", "big.Int.SetString base 0 with digit separators")
+				}
+			}
 		}
 		if bitsFor(base, len(b)) > bigW-2 {
 			abort("cut", "big.Int.SetString: literal of %d digits exceeds the %d-bit model width", len(b), bigW)
